@@ -13,7 +13,7 @@ LEVEL_NOTE = ("theorems are about the resolved-layer core of Model/Put.lean run 
               "correspondence); fault-free, single process; shutil/os routines as encoded in Model/PyLib.lean")
 RULE = ("seeded random worlds: 1-4 arguments of kinds file/empty/tree/symlink(file,dir,dangling,absolute) x 11 spellings "
         "(relative, absolute, './', trailing slashes, 'd/../x', '//abs', through a symlinked parent, 'link/../x'), dot "
-        "entries, missing paths, mount points, named pipes; home directories whose names hold regular-expression metacharacters, or are "
+        "entries, missing paths, mount points (some read-only), read-only and setgid directories, named pipes; home directories whose names hold regular-expression metacharacters, or are "
         "called 'info'; options -f/-i(+replies)/--trash-dir/--home-fallback; 1-5 volumes with "
         "every state of .Trash and .Trash-uid and pre-populated trash directories; a world is non-trivial when the run "
         "issued a mutating call or printed a diagnostic; distinct by (args, options, cwd, mounts, size); plus 2-3 real "
